@@ -571,6 +571,17 @@ impl CelValue {
         }
     }
 
+    /// Result of checked timestamp/duration arithmetic: `None` means the
+    /// result is outside the representable range.
+    fn time_or_overflow<T: Into<CelValue>>(val: Option<T>) -> CelValue {
+        match val {
+            Some(v) => v.into(),
+            None => CelValue::from_err(CelError::value(
+                "Timestamp/duration arithmetic out of range",
+            )),
+        }
+    }
+
     /// Operands of an int/uint pair that `type_prop` could not widen (the
     /// uint is above the int range), as exact 128 bit integers.
     fn mixed_int_operands(lhs: &CelValue, rhs: &CelValue) -> Option<(i128, i128)> {
@@ -1326,12 +1337,16 @@ impl Add for CelValue {
                 }
                 CelValue::TimeStamp(v1) => {
                     if let CelValue::Duration(v2) = rhs {
-                        return CelValue::from_timestamp(v1 + v2);
+                        return CelValue::time_or_overflow(v1.checked_add_signed(v2));
                     }
                 }
                 CelValue::Duration(v1) => match rhs {
-                    CelValue::TimeStamp(v2) => return CelValue::from_timestamp(v2 + v1),
-                    CelValue::Duration(v2) => return CelValue::Duration(v1 + v2),
+                    CelValue::TimeStamp(v2) => {
+                        return CelValue::time_or_overflow(v2.checked_add_signed(v1))
+                    }
+                    CelValue::Duration(v2) => {
+                        return CelValue::time_or_overflow(v1.checked_add(&v2))
+                    }
                     _ => {}
                 },
                 _ => {}
@@ -1380,13 +1395,19 @@ impl Sub for CelValue {
                     }
                 }
                 CelValue::TimeStamp(v1) => match rhs {
-                    CelValue::Duration(v2) => return CelValue::from_timestamp(v1 - v2),
+                    CelValue::Duration(v2) => {
+                        return CelValue::time_or_overflow(v1.checked_sub_signed(v2))
+                    }
                     CelValue::TimeStamp(v2) => return CelValue::from_duration(v1 - v2),
                     _ => {}
                 },
                 CelValue::Duration(v1) => match rhs {
-                    CelValue::TimeStamp(v2) => return CelValue::from_timestamp(v2 - v1),
-                    CelValue::Duration(v2) => return CelValue::from_duration(v1 - v2),
+                    CelValue::TimeStamp(v2) => {
+                        return CelValue::time_or_overflow(v2.checked_sub_signed(v1))
+                    }
+                    CelValue::Duration(v2) => {
+                        return CelValue::time_or_overflow(v1.checked_sub(&v2))
+                    }
                     _ => {}
                 },
                 _ => {}
